@@ -224,3 +224,15 @@ func firstLine(s string) string {
 	}
 	return s
 }
+
+func sortedKeys(m map[string]reflect.Value) []string {
+	r := make([]string, 0, len(m))
+	for k := range m {
+		r = append(r, k)
+	}
+	sort.Strings(r)
+	return r
+}
+
+// envSafe: environment values cannot contain NUL.
+func envSafe(s string) string { return strings.ReplaceAll(s, "\x00", "0") }
